@@ -18,6 +18,23 @@ pub type SStr = purl::SmallString;
 #[cfg(not(feature = "smart"))]
 pub type SStr = String;
 
+/// A user-defined well-known qualifier whose declared KEY is INVALID: inserting it is one of the
+/// three documented panics; whether it panics or refuses, the collection must stay as it was.
+pub struct BadKeyTag<'a>(pub &'a str);
+impl purl::qualifiers::well_known::KnownQualifierKey for BadKeyTag<'_> {
+    const KEY: &'static str = "bad key";
+}
+impl<'a> From<&'a str> for BadKeyTag<'a> {
+    fn from(v: &'a str) -> Self {
+        BadKeyTag(v)
+    }
+}
+impl<'a> From<BadKeyTag<'a>> for SStr {
+    fn from(v: BadKeyTag<'a>) -> Self {
+        SStr::from(v.0)
+    }
+}
+
 /// A user-defined well-known qualifier whose KEY is valid but not lower-case (the typed accessors
 /// must treat it like any other spelling of `build_tag`).
 pub struct BuildTag<'a>(pub &'a str);
